@@ -48,6 +48,18 @@ def list_irregular(triples):
     return False
 
 
+def list_cell_shared(triples):
+    """a list cell that is referenced more than once (shared tail, head used twice)"""
+    cells = {_key(s) for s, p, o in triples if p["v"] in (RDF + "first", RDF + "rest")}
+    return any(sum(1 for s, p, o in triples if _key(o) == c) > 1 for c in cells)
+
+
+def list_cell_typed_list(triples):
+    """a list cell that also carries the statement rdf:type rdf:List"""
+    cells = {_key(s) for s, p, o in triples if p["v"] in (RDF + "first", RDF + "rest")}
+    return any(_key(s) in cells and p["v"] == RDF + "type" and o.get("v") == RDF + "List" for s, p, o in triples)
+
+
 def rest_cycle(triples):
     return bnode_cycle([t for t in triples if t[1]["v"] == RDF + "rest"])
 
@@ -68,7 +80,7 @@ def xml_bad_char(triples):
     return any(o["k"] == "lit" and _XML_BAD.search(o["v"]) for s, p, o in triples)
 
 
-PREDICATES = {"bnode_cycle": bnode_cycle, "list_irregular": list_irregular, "rest_cycle": rest_cycle,
+PREDICATES = {"bnode_cycle": bnode_cycle, "list_irregular": list_irregular, "list_cell_shared": list_cell_shared, "list_cell_typed_list": list_cell_typed_list, "rest_cycle": rest_cycle,
               "double_many_digits": double_many_digits, "xml_bad_char": xml_bad_char}
 
 
